@@ -19,10 +19,12 @@ static const char* MODS[] = {"tests", "math", "string", "time", "pe", "elf", "ha
 
 std::string run_case(Src& s, CaseInfo& ci)
 {
-  static const char* NS[] = {"default", "nsA", "nsB"};
+  static const char* NS[] = {"default", "nsA", "nsB", "n03", "n04", "n05", "n06", "n07", "n08", "n09", "n10", "n11"};
   static const char* pats[] = {"abc", "bc", "xyz", "aa", "hello"};
-  size_t nrules = s.range(1, 12);
-  size_t nns = s.range(1, 3);
+  // mostly 1-3 namespaces; sometimes up to 12, so that per-namespace state does not fit a byte
+  bool many_ns = s.coin(15);
+  size_t nrules = many_ns ? s.range(10, 16) : s.range(1, 12);
+  size_t nns = many_ns ? s.range(9, 12) : s.range(1, 3);
   std::vector<PRule> rules;
   for (size_t r = 0; r < nrules; r++)
   {
@@ -60,6 +62,13 @@ std::string run_case(Src& s, CaseInfo& ci)
     size_t nseg = s.range(0, 6);
     for (size_t i = 0; i < nseg; i++) buf += s.coin(60) ? bytes(pats[s.range(0, 4)]) : bytes(1, (char) ('p' + s.range(0, 5)));
   }
+  // another buffer: the persistent scanner scans it first, so the sequence for `buf` is produced by a
+  // scanner that has already reported something else ("exactly one ... per scan" holds for every scan)
+  bytes other;
+  {
+    size_t nseg = s.range(0, 6);
+    for (size_t i = 0; i < nseg; i++) other += s.coin(60) ? bytes(pats[s.range(0, 4)]) : bytes(1, (char) ('p' + s.range(0, 5)));
+  }
 
   // source text: one unit per namespace run
   struct Unit
@@ -90,7 +99,7 @@ std::string run_case(Src& s, CaseInfo& ci)
   }
   std::string src;
   for (auto& u : units) src += "// namespace " + u.ns + "\n" + u.text;
-  ci.desc = src + strf("flags=%d\nbuffer \"%s\"\n", flags, esc(buf).c_str());
+  ci.desc = src + strf("flags=%d\nbuffer \"%s\"\nscanned before on the same scanner: \"%s\"\n", flags, esc(buf).c_str(), esc(other).c_str());
   ci.hash = hstr(ci.desc);
   checkpoint(s, ci.desc);
 
@@ -217,6 +226,15 @@ std::string run_case(Src& s, CaseInfo& ci)
     ys_scanner* p;
     ~Guard() { ys_scanner_free(p); }
   } guard{persistent};
+  if (persistent)
+  {
+    ys_scan_opts o;
+    memset(&o, 0, sizeof o);
+    o.flags = flags;
+    char* t = nullptr;
+    ys_scan(R.r, persistent, (const uint8_t*) other.data(), other.size(), &o, &t);
+    ys_free(t);
+  }
   auto join = [](const std::vector<std::string>& v) {
     std::string o;
     for (auto& l : v) o += l + "; ";
